@@ -132,6 +132,15 @@ def check_commit(case, ctx):
     require(tp.secret == rt.tweak_seckey(secret, root), "commit/tweaked_secret")
     require((tp.point.x.num, tp.point.y.num) == Q, "commit/tweaked_secret_is_not_dlog_of_output_key")
     require(internal.p2tr_script(root).raw_serialize() == b"\x51\x20" + ec.xonly(Q), "commit/p2tr_script")
+    # the same commitment through the explicit-tweak entry points
+    tw = must(internal.tweak, "commit/tweak", root)
+    require(tw == ec.tagged_hash("TapTweak", ec.xonly(P) + root), "commit/tweak_value")
+    e3 = must(internal.tweaked_key, "commit/tweaked_key_explicit_tweak", root, tw)
+    require((e3.x.num, e3.y.num) == Q, "commit/output_key_with_explicit_tweak",
+            f"internal parity {P[1] & 1}")
+    require(internal.p2tr_script(tweak=tw).raw_serialize() == b"\x51\x20" + ec.xonly(Q),
+            "commit/p2tr_script_with_explicit_tweak")
+    require(internal.p2tr_address(tweak=tw) == internal.p2tr_address(root), "commit/p2tr_address_with_explicit_tweak")
     bleaves = btree.leaves()
     require(len(bleaves) == len(leaves), "commit/leaf_count")
     sample = {i % len(leaves) for i in case["leaf_sample"]}
